@@ -53,12 +53,22 @@ impl Timer {
     ///
     /// The result is cached.
     pub fn precision(self) -> FineDuration {
+        #[cfg(divan_verif)]
+        if let Some(picos) = ::divan_verif_rt::clock::forced_precision() {
+            return FineDuration { picos };
+        }
+
         static CACHED: [OnceLock<FineDuration>; Timer::COUNT] =
             [OnceLock::new(), OnceLock::new()];
 
         let cached = &CACHED[self.kind() as usize];
 
         *cached.get_or_init(|| self.measure_precision())
+    }
+
+    #[cfg(divan_verif)]
+    pub(crate) fn verif_measure_precision(self) -> FineDuration {
+        self.measure_precision()
     }
 
     fn measure_precision(self) -> FineDuration {
@@ -140,6 +150,18 @@ impl Timer {
     ///
     /// `min_time` and `max_time` do not consider this as benchmarking time.
     pub fn bench_overheads(self) -> &'static TimedOverhead {
+        #[cfg(divan_verif)]
+        if let Some([sample_loop, tally_alloc, tally_dealloc, tally_realloc]) =
+            ::divan_verif_rt::clock::forced_overheads()
+        {
+            return Box::leak(Box::new(TimedOverhead {
+                sample_loop: FineDuration { picos: sample_loop },
+                tally_alloc: FineDuration { picos: tally_alloc },
+                tally_dealloc: FineDuration { picos: tally_dealloc },
+                tally_realloc: FineDuration { picos: tally_realloc },
+            }));
+        }
+
         // Miri is slow, so don't waste time on this.
         if cfg!(miri) {
             return &TimedOverhead::ZERO;
